@@ -11,10 +11,16 @@ import LibconfigModel.Writer
   scanner table and input: the depth limit, the three error exits and where they point,
   the order in which the files of a frame are consumed, LIFO frames, path resolution, the
   line counter per buffer, and the provenance recorded by the parser action.  The
-  end-to-end statement "read with includes = read of the spliced text" is kept as
-  `C10_spliceStatement`; it is decided dynamically by the direct oracle of
-  tools/props_c1011.py (`read_file top` against `read_string <spliced text>` on generated
-  include trees), not proved.
+  end-to-end statement "read with includes = read of the spliced text" was first written
+  down here as `C10_spliceStatement`.  The attempt to prove it showed that it is FALSE as
+  stated (`C10_spliceStatement_false` in Properties/C10Splice.lean: a last file without a
+  final newline followed by more text on the directive's line glues two tokens together in
+  the spliced text; a NUL inside a path).  The statement is kept for the record; the
+  theorem that holds — under `IncludeTreeOK'`, which adds exactly what "cut at line
+  boundaries" and "paths are C strings" mean — is `C10_splice` / `C10_tokens` in
+  Properties/C10Splice.lean.  The direct oracle of tools/props_c1011.py (`read_file top`
+  against `read_string <spliced text>` on generated include trees) decides the same
+  statement on the implementation.
 
   Documented values appear as literals (10 levels, the two error texts, the `/`
   separator); the bridge lemmas tie them to the constants re-extracted from the source.
@@ -353,7 +359,8 @@ def IncludeTreeOK (w : World) (ic : IncludeCfg) : Nat → Bytes → Prop
         (∀ p ∈ files.dropLast, ∀ content, w.open? p = some content →
           content = [] ∨ content.getLast? = some 10)
 
-/-- **@include = textual inlining** (statement only; decided dynamically by the direct
+/-- **@include = textual inlining** (first formulation — refuted, see the header and
+Properties/C10Splice.lean; decided dynamically by the direct
 oracle of `tools/props_c1011.py`, which compares `config_read_file(top)` with
 `config_read_string(spliced text)` on generated include trees — cut at line boundaries,
 fan-out 0–5, depth 0–12, more than 32 files, empty files, files without trailing newline,
